@@ -229,7 +229,20 @@ def run(ctx):
     rev = bool(ext) and (("reversed(" in norm(ext[0].args[0])) != bool(front))
     ctx.check("R2", "buckets (built in reverse topological order) are reversed when relinked", rev, f, ext[0] if ext else f.node,
               "nodes are relinked in reverse order", how="reversed(bucket)", nontrivial=False)
-    keys = [n for p_ in parts for n in own_nodes(p_.node) if isinstance(n, (ast.DictComp,)) and any(isinstance(x, ast.Attribute) and x.attr == "graph" for x in ast.walk(n))]
+    def _mentions_graph(p_, e, depth=0):
+        # `.graph` read in the expression, or in what a local it iterates was bound to (`owners = {n.graph for n in nodes}`)
+        for x in ast.walk(e):
+            if isinstance(x, ast.Attribute) and x.attr == "graph":
+                return True
+            if isinstance(x, ast.Name) and depth < 2:
+                for a in own_nodes(p_.node):
+                    if isinstance(a, (ast.Assign, ast.AnnAssign)) and getattr(a, "value", None) is not None and a.value is not e \
+                            and any(isinstance(t, ast.Name) and t.id == x.id for t in (a.targets if isinstance(a, ast.Assign) else [a.target])) \
+                            and _mentions_graph(p_, a.value, depth + 1):
+                        return True
+        return False
+
+    keys = [n for p_ in parts for n in own_nodes(p_.node) if isinstance(n, (ast.DictComp,)) and _mentions_graph(p_, n)]
     ctx.check("R2", "one bucket per graph that owns a traversed node", bool(keys), f, f.node, "bucket table is not derived from node.graph", nontrivial=False)
     # R3
     n = 0
